@@ -191,8 +191,8 @@ func Run(threads []func(), prefix []int) (res Result, err error) {
 	}
 	initPipes()
 	n := len(threads)
-	pending := make([]int, n)     // pending op per thread
-	pobj := make([]uintptr, n)    // its object
+	pending := make([]int, n)  // pending op per thread
+	pobj := make([]uintptr, n) // its object
 	finished := make([]bool, n)
 	locks := map[uintptr]*lockState{}
 	lock := func(o uintptr) *lockState {
